@@ -34,7 +34,7 @@ func init() { props["C14"] = sim.PropSpec{Gen: genC14, Exec: execC14, NoShrink: 
 func genC14(r *sim.Rand, tier string) *sim.Case {
 	c := &sim.Case{Cfg: map[string]int64{
 		"kind":        int64(r.Intn(3)),
-		"block_size":  r.Pick64(256, 512, 1024, 4096),
+		"block_size":  r.Pick64(64, 128, 256, 1024, 4096),
 		"bloom_milli": r.Pick64(0, 10),
 		"block_cache": r.Pick64(0, 0, 8),
 		"verify_bit":  int64(r.Intn(8)),
